@@ -116,6 +116,72 @@ type delivery struct {
 // splitStalledCases counts the cases in which a client met a listener that no longer answered
 var splitStalledCases atomic.Int64
 
+// runSplitConcurrentGet: several goroutines ask one split listener for the sub-listener of the same protocol for
+// the first time, at the same moment. The registry is get-or-create: all of them must be handed the one
+// listener that is registered (the one a later call returns, and the one connections are routed to).
+func runSplitConcurrentGet(c *engine.Ctx, s *world.Server, trials, callers int) {
+	r := c.R
+	lw, err := world.NewLW(s, world.LWCfg{BaseTLS: baseTLSConfig(), NoAccept: true})
+	if err != nil {
+		r.Broken("listener: " + err.Error())
+		return
+	}
+	defer lw.Close()
+	for t := 0; t < trials; t++ {
+		sl, err := nodenet.NewSplitListener(lw.IL)
+		if err != nil {
+			r.Broken("split listener: " + err.Error())
+			return
+		}
+		name := fmt.Sprintf("proto-%d", t)
+		got := make([]net.Listener, callers)
+		errs := make([]error, callers)
+		var ready, wg sync.WaitGroup
+		start := make(chan struct{})
+		for i := 0; i < callers; i++ {
+			ready.Add(1)
+			wg.Add(1)
+			go func(i int) {
+				defer wg.Done()
+				ready.Done()
+				<-start
+				got[i], errs[i] = sl.GetListener(name, nodeenrollment.WithNativeConns(i%2 == 0))
+			}(i)
+		}
+		ready.Wait()
+		close(start)
+		wg.Wait()
+		registered, rerr := sl.GetListener(name)
+		r.Eval(fmt.Sprintf("concurrent-get trial=%d callers=%d", t, callers), true)
+		bad := false
+		for i := range got {
+			switch {
+			case errs[i] != nil || rerr != nil:
+				r.Violation("concurrent-get-listener-failed", fmt.Sprintf("GetListener failed under %d simultaneous first-time calls: %v %v", callers, errs[i], rerr), map[string]any{"trial": t, "callers": callers})
+				bad = true
+			case got[i] != registered:
+				r.Violation("sub-listener-registry-not-get-or-create", fmt.Sprintf("of %d simultaneous first-time GetListener calls for one protocol, caller %d was handed a listener that is not the registered one: connections for that protocol never reach it", callers, i), map[string]any{"trial": t, "callers": callers})
+				bad = true
+			}
+			if bad {
+				break
+			}
+		}
+		if !bad {
+			r.Count("concurrent_first_time_lookups_all_got_the_registered_listener", 1)
+		}
+		_ = registered.Close()
+		for _, l := range got {
+			if l != nil && l != registered {
+				_ = l.Close()
+			}
+		}
+		if bad {
+			return
+		}
+	}
+}
+
 func runSplitCase(c *engine.Ctx, s *world.Server, node *world.Node, sc splitCase) {
 	r := c.R
 	engine.LogInput("C17 %s", engine.J(sc))
@@ -546,6 +612,8 @@ func runSplit(c *engine.Ctx) engine.Result {
 	r.Sample(cases[5])
 	r.Sample(map[string]any{"clients": splitClients})
 	engine.ForEach(len(cases), engine.Workers(), func(i int) { runSplitCase(c, s, er.Node, cases[i]) })
+	runSplitConcurrentGet(c, s, c.Pick(300, 3000), 8)
+	r.Require("concurrent_first_time_lookups_all_got_the_registered_listener", 100)
 	r.Require("delivered_as_expected:auth->specific", 10)
 	r.Require("delivered_as_expected:auth->nonspecific", 10)
 	r.Require("delivered_as_expected:base->unauth", 10)
